@@ -52,7 +52,7 @@ def run(ctx):
     import itertools
     runs = itertools.chain(C.explore(ctx, ctx.n(600, 8000), 12, styles, p_invalid=0.15), C.explore_equal_sizes(ctx, depth=4 if ctx.thorough else 3), C.explore_boundary_sizes(ctx),
                            # long-lived objects: one block object through every short history, and an object that pauses while others rearrange the file
-                           C.explore_one_object(ctx, depth=4 if ctx.thorough else 3), C.explore_two_objects(ctx, ctx.n(150, 3000)))
+                           C.explore_one_object(ctx, depth=5 if ctx.thorough else 4), C.explore_two_objects(ctx, ctx.n(150, 3000)))
     for r in runs:
         ctx.case((r.desc, str(C.jsonable_hist(r.hist))), nontrivial=C.nontrivial_history(r),
                  sample=dict(start=r.desc, ops=[s["op"][0] + ":" + s["real"] for s in r.steps]), tags=C.history_tags(r))
